@@ -82,7 +82,7 @@ op_st = st.one_of(
                           .map(lambda l: [list(x) for x in l])}),
     st.fixed_dictionaries({"op": st.just("sortby_key"), "which": st.integers(0, 10)}),
     st.fixed_dictionaries({"op": st.just("sortby_perm"), "seed": st.integers(0, 10 ** 6),
-                           "as": st.sampled_from(["list", "nd", "repeats", "arr", "arr"])}),
+                           "as": st.sampled_from(["list", "nd", "repeats", "arr", "arr", "arr_u32", "arr_i16"])}),
 )
 case_st = st.fixed_dictionaries({
     "n": st.integers(1, 12),
@@ -494,9 +494,21 @@ def history(case, r):
             if op["as"] == "arr":
                 key = osyris.Array(values=perm)       # an index list held in an Array (what np.argsort(member) returns)
                 r.label("sortby_index_Array")
+            odd = op["as"] in ("arr_u32", "arr_i16")
+            if odd:
+                # an index Array of an integer type that osyris may refuse: either it sorts every member, or it raises and
+                # leaves the group as it was
+                key = osyris.Array(values=perm.astype(np.uint32 if op["as"] == "arr_u32" else np.int16))
+                r.label("sortby_index_Array_of_another_integer_type")
             try:
                 dg.sortby(key)
             except Exception as e:
+                if odd:
+                    _check_group(dg, model, r, f"after refused {where} ({type(e).__name__})")
+                    if r.records:
+                        r.records[-1]["signature"] = ["sortby-refused-but-group-changed"] + list(r.records[-1]["signature"])
+                        break
+                    continue
                 r.bad(["sortby-raises", type(e).__name__], f"{where} perm {perm.tolist()}: {e!r}")
                 break
             n_sel += 1
